@@ -202,6 +202,48 @@ def common_members():
     return None
 
 
+def shadowed_members():
+    """a name listed in a NAMELIST / COMMON statement of a contained procedure is that procedure's own declaration of the name when it has one, whatever its host (module, or
+    procedure with a dummy argument of that name) declares; a name it does not declare itself is the host's"""
+    src = ("module host\n  implicit none\n  integer :: x(3)\n  character(len=4) :: tag\n  integer :: shared\ncontains\n  subroutine outer(n, Cnt)\n    integer :: n, Cnt\n    namelist /dummies/ cnt\n  contains\n"
+           "    subroutine inner()\n      real :: x, n\n      logical :: tag\n      common /blk/ x\n      namelist /nm/ tag, n, shared\n    end subroutine inner\n  end subroutine outer\nend module host\n")
+    proj = realrun.build_project({"src/h.f90": src}, display=["public", "private", "protected"], proc_internals=True)
+    m = proj.modules[0]
+    outer = m.subroutines[0]
+    inner = outer.subroutines[0]
+    d = lambda v: v if isinstance(v, str) else (v.name.lower(), v.vartype, getattr(v.parent, "name", None))
+    got = {"common /blk/ of inner": [d(v) for c in inner.common for v in c.variables], "namelist /nm/ of inner": [d(v) for v in inner.namelists[0].variables],
+           "variables left in inner": sorted(v.name for v in inner.variables), "namelist /dummies/ of outer": [d(v) for v in outer.namelists[0].variables]}
+    want = {"common /blk/ of inner": [("x", "real", "inner")], "namelist /nm/ of inner": [("tag", "logical", "inner"), ("n", "real", "inner"), ("shared", "integer", "host")],
+            "variables left in inner": ["n", "tag"], "namelist /dummies/ of outer": [("cnt", "integer", "outer")]}
+    if got != want:
+        return {"confirmed": True, "input": {"source": src}, "actual": got, "expected": want,
+                "how": "real pipeline (Project.correlate): (name, type, declaring scope) of the members of a common block and of namelist groups whose names are also declared by the host"}
+    return None
+
+
+def implicit_attributes():
+    """an attribute statement gives its attribute to the entities it names and to no other: function results typed in the prefix, implicitly typed dummies and results"""
+    src = ("real function area(r)\n  real :: r\n  pointer :: area\n  area => null()\nend function area\n"
+           "integer function count_items(n)\n  integer :: n\n  count_items = n\nend function count_items\n"
+           "function legacy(i, x)\n  dimension x(3)\n  legacy = i\nend function legacy\n"
+           "subroutine blocks()\n  common /c/ p, q, w(2,3)\n  target :: q\nend subroutine blocks\n"
+           "block data init\n  common /c/ p, q, w\n  dimension w(2,3)\nend block data init\n")
+    proj = realrun.build_project({"src/i.f90": src}, display=["public", "private", "protected"], proc_internals=True)
+    procs = {p.name: p for p in proj.procedures}
+    a = lambda v: sorted(x.lower().replace(" ", "") for x in v.attribs)
+    got = {"result of area": a(procs["area"].retvar), "result of count_items": a(procs["count_items"].retvar), "result of legacy": a(procs["legacy"].retvar),
+           "dummy i of legacy": a(procs["legacy"].args[0]), "dummy x of legacy": a(procs["legacy"].args[1]), "dummy r of area": a(procs["area"].args[0]),
+           "common /c/": [(v if isinstance(v, str) else (v.name, a(v))) for v in procs["blocks"].common[0].variables],
+           "common /c/ in the block data": [(v if isinstance(v, str) else (v.name, a(v))) for v in proj.blockdata[0].common[0].variables]}
+    want = {"result of area": ["pointer"], "result of count_items": [], "result of legacy": [], "dummy i of legacy": [], "dummy x of legacy": ["dimension(3)"], "dummy r of area": [],
+            "common /c/": [("p", []), ("q", ["target"]), ("w", ["dimension(2,3)"])], "common /c/ in the block data": [("p", []), ("q", []), ("w", ["dimension(2,3)"])]}
+    if got != want:
+        return {"confirmed": True, "input": {"source": src}, "actual": got, "expected": want,
+                "how": "real pipeline: attributes reported for function results, dummies and common members after attribute statements that name some of them"}
+    return None
+
+
 def variants():
     return list(itertools.product(["paren", "star", "kind"], ["decl", "stmt"], ["bare", "kw", "named", "joined"], [True, False], [False, True]))
 
@@ -234,7 +276,7 @@ def search():
         if d:
             return {"confirmed": True, "input": {"source": text, "base": base_text, "variant": v}, "actual": d, "expected": "same canonical entity tree as the base spelling",
                     "how": f"real parser: base spelling vs variant (kind spelling, attribute style, end style, '::', upper case) = {v}"}
-    return search_rich() or enumerator_values() or common_members()
+    return search_rich() or enumerator_values() or common_members() or shadowed_members() or implicit_attributes()
 
 
 def count_cases():
